@@ -28,7 +28,7 @@ Qed.
 Lemma perform_incoming : forall acts s r, s_incoming (fst (fst (perform s r acts))) = s_incoming s.
 Proof.
   induction acts as [|[m l|l] acts IH]; intros s r; cbn [perform]; [reflexivity| |].
-  - pose proof (send_message_incoming s r m) as H. destruct (send_message s r m) as [s1 w]. cbn in H.
+  - pose proof (send_message_incoming s r (tm_fill r m)) as H. destruct (send_message s r (tm_fill r m)) as [s1 w]. cbn in H.
     specialize (IH s1 r). destruct (perform s1 r acts) as [[s2 w2] l2]. cbn in *. congruence.
   - specialize (IH s r). destruct (perform s r acts) as [[s2 w2] l2]. exact IH.
 Qed.
@@ -439,10 +439,8 @@ Proof. unfold sends_of. apply flat_map_app. Qed.
 Lemma entry_sends_own srv e : e_pipes e = live -> not_raw srv (e_req e) ->
   entry_sends srv e = match final_message srv (e_req e) with Some m => [(m, true)] | None => [] end.
 Proof.
-  intros He Hn. unfold entry_sends. rewrite He. pose proof (coroutine_final_once srv (e_req e) Hn) as H.
-  destruct (final_message srv (e_req e)) as [m|].
-  - destruct H as (logs & n & ->). rewrite sends_of_app, sends_of_logs. reflexivity.
-  - destruct H as (logs & ->). apply sends_of_logs.
+  intros He Hn. unfold entry_sends. rewrite He. destruct (coroutine_final_once srv (e_req e) Hn) as (m & logs & n & -> & ->).
+  rewrite sends_of_app, sends_of_logs. reflexivity.
 Qed.
 (* when a handler gets to finish, exactly the final message of its own request is handed to the message layer — whatever
    else is in flight, whatever the clock, the pending ACKs and the backlog are *)
@@ -624,3 +622,13 @@ Proof.
       * left. unfold send_initially. cbn. reflexivity.
     + left. unfold send_initially. cbn. reflexivity.
 Qed.
+
+(* every response, whoever produced it (handler, error renderer, 4.04 / 4.05 / 5.00 built from exceptions), goes to the
+   message layer with the request's No-Response option filled in if it had none *)
+Lemma perform_send s r m last :
+  perform s r [Send m last] = let '(s', w) := send_message s r (tm_fill r m) in (s', w ++ [], []).
+Proof. cbn [perform]. destruct (send_message s r (tm_fill r m)). reflexivity. Qed.
+Lemma tm_fill_spec r m :
+  m_code (tm_fill r m) = m_code m /\ m_payload (tm_fill r m) = m_payload m /\ m_cf (tm_fill r m) = m_cf m /\
+  m_nr (tm_fill r m) = match m_nr m with Some n => Some n | None => r_nr r end.
+Proof. repeat split. Qed.
